@@ -8,6 +8,8 @@
 (*          from `python -m rbql` / rbql-js cli runs                       *)
 (*  "sql" : {tid, ident: [class..], statements: [shape..]}                 *)
 (*          from a logging sqlite3 connection                              *)
+(*  "lookup": {tid, direct, maindir, index, abs, hasdir, found}            *)
+(*          which candidate file a join query actually read                *)
 (* The verdicts are the monitors of Frontends.tla.                         *)
 (***************************************************************************)
 EXTENDS Frontends, Json, IOUtils
@@ -24,6 +26,7 @@ ToSet(s) == {s[k] : k \in 1..Len(s)}
 Verdict(t) == CASE Kind = "fd"  -> FdOk(t.events) /\ t.leaked = 0
                 [] Kind = "cli" -> CliOk([exit |-> t.exit, stdout_is_table |-> t.stdout_is_table, stderr_kinds |-> ToSet(t.stderr_kinds), outcome |-> t.outcome])
                 [] Kind = "sql" -> SqlOk(SafeIdent(t.ident), t.statements)
+                [] Kind = "lookup" -> t.found = ResolveTable([direct |-> t.direct, maindir |-> t.maindir, index |-> t.index], t.abs, t.hasdir)
                 [] OTHER -> FALSE
 
 Judge == IF i <= Len(Traces)
